@@ -171,6 +171,7 @@ def run(ctx):
     ctx.coverage["evaluations"] += enc.get("compared") or 0
     session_part(ctx)
     later_field_part(ctx)
+    encoding_option_probe(ctx)
     concurrent_part(ctx)
     import e2e_hook
     e2e_hook.run(ctx, ["c16"])
@@ -294,6 +295,40 @@ def tag_version(tag):
         if first <= tag < 0x430000:
             return v
     return 10
+
+
+def encoding_option_probe(ctx):
+    """the known finding of round 13, produced by construction on every run: a wrapped Get whose Key Wrapping
+    Specification carries Encoding Option (a KMIP 1.1 field) under a 1.0 header - is it accepted, and does the 1.0
+    answer carry the field back?  (Same signature as the end-to-end monitor that found it.)"""
+    import impl_session as S
+    import gen_session as G
+    from lib_e2e_tags import all_tags, tag_version
+    rig = S.Rig()
+    try:
+        A = lambda n, k, v: {"name": n, "index": None, "value": {"k": k, "v": v}}
+        t = lambda mask: {"tnames": 0, "attrs": [A("Cryptographic Algorithm", "enum", 3), A("Cryptographic Length", "int", 128),
+                                                 A("Cryptographic Usage Mask", "int", mask)]}
+        frames = [G.encode_request(G.mkreq(12, [{"op": "create", "bid": None, "crypto": None, "otype": 2, "tmpl": t(0x10 | 0x20 | 4 | 8)}])),
+                  G.encode_request(G.mkreq(12, [{"op": "activate", "bid": None, "crypto": None, "uid": "1"}])),
+                  G.encode_request(G.mkreq(12, [{"op": "create", "bid": None, "crypto": None, "otype": 2, "tmpl": t(12)}])),
+                  G.encode_request(G.mkreq(10, [{"op": "get", "bid": None, "crypto": None, "uid": "2", "format": None, "compression": False,
+                                                 "wrap": {"method": 1, "enckey": "1", "encparams": True, "mackey": False,
+                                                          "attrnames": 0, "encoding": 1}}]))]
+        res = rig.run_session([b"".join(frames)], S.make_cert(), digests=False)
+        outs = res.get("out", [])
+        ctx.coverage["encoding_option_probe_responses"] = len(outs)
+        if len(outs) == 4:
+            raw = outs[3]
+            late = sorted(set(x for x in all_tags(raw) if tag_version(x) > 10))
+            ok = raw.find(b"\x42\x00\x7f\x05\x00\x00\x00\x04\x00\x00\x00\x00") >= 0
+            ctx.coverage["encoding_option_probe"] = {"answered_success": ok, "later_tags_in_1_0_answer": ["0x%06X" % x for x in late]}
+            if late:
+                ctx.report("c16:e2e-later-field-sent:tag-%06X:under-10" % late[0],
+                           "a wrapped Get with Encoding Option under a KMIP 1.0 header is answered with the field(s) %s in a 1.0 response"
+                           % ["0x%06X" % x for x in late], {"kind": "encoding-option-probe"})
+    finally:
+        rig.close()
 
 
 def later_field_part(ctx):
@@ -542,6 +577,10 @@ def replay(ctx, rep):
             bad += 1 if r["fails"] else 0
         print("  runs (of 10) with a request served under another session's version: %d" % bad)
         return bad == 0
+    if (rep.get("replay") or {}).get("kind") == "encoding-option-probe":
+        c2 = type(ctx)(ctx.pid, "quick", ctx.seed, None)
+        encoding_option_probe(c2)
+        return not [v for v in c2.violations] and not getattr(c2, "known", 0)
     if (rep.get("replay") or {}).get("kind") == "later-field":
         return replay_later_field(ctx, rep)
     if (rep.get("replay") or {}).get("kind") == "encode":
